@@ -23,8 +23,6 @@ AUDITED = [
      "byte i/2 with i <= mask is inside the row: sizing obligation R13.5 (mask/2 < width), decided by check_sketch_sizing"),
     (r"^<sketch::CountMinRow as std::ops::Index(Mut)?<usize>>::index(_mut)?$", "index", r"^self\.0 \[index\]$",
      "forwarding impl; callers are CountMinRow::get / increment (see R13.5)"),
-    (r"::(LFUPolicy|AsyncLFUPolicy)::add$", "index", r"^sample \[\(Vec::len\(sample\) - 1\)\]$|^sample \[min_id\]$",
-     "the sample is non-empty here: room < 0 with cost <= max_cost implies used > 0, hence key_costs (invariant R01.2) and the refilled sample are non-empty; min_id indexes the same vector"),
     (r"^histogram::Histogram::update$", "index", r"^self\.count_per_bucket \[",
      "count_per_bucket has bounds.len() + 1 slots (Histogram::new) and idx ranges over 0..=bounds.len()"),
     (r"^histogram::Histogram::percentile$", "index", r"^self\.bounds \[",
@@ -37,7 +35,7 @@ AUDITED = [
      "self.d - elapsed is evaluated only on the else branch of `elapsed >= self.d`"),
     (r"^<TransparentHasher as std::hash::Hasher>::write$", "std-op", r"copy_from_slice",
      "both copies are between slices of equal length: data (8 bytes) <- bytes[..8], data[..bytes.len()] <- bytes with bytes.len() <= 8"),
-    (r"::(LFUPolicy|AsyncLFUPolicy)::add$", "std-op", r"Vec::drain\(sample, .*RangeFrom",
+    (r"::(LFUPolicy|AsyncLFUPolicy)::add$", "std-op", r"Vec::drain\(\w+, .*RangeFrom",
      "drain(new_len..) with new_len = sample.len() - 1 <= len (the sample is non-empty here, see the index entry)"),
     (r"^<TransparentHasher as std::hash::Hasher>::write$", "index", r"bytes|data",
      "bytes[..8] is taken only when bytes.len() > 8, data[..bytes.len()] only when bytes.len() <= 8"),
@@ -84,6 +82,12 @@ def interval_max(body, e, facts, depth=0):
         ex = norm(body.expand(e))
         if ex != e and depth < 4:
             return interval_max(body, ex, facts, depth + 1)
+    # the element of a loop over a constant range: `for i in 0..N` (or a named copy of it)
+    for it in iterations(body):
+        if it.canon(e) == ("elem",):
+            src = it.source
+            if src[0] == "agg" and src[2].endswith("Range::Range") and src[3][1][0] == "const" and isinstance(src[3][1][1], int):
+                return src[3][1][1] - 1
     return None
 
 
@@ -226,6 +230,15 @@ def check_panic_sites(rep, fl, rule="R20.2"):
                 rng_ok = any(is_call(norm(b.call_expr(tt, True)), "RangeInclusive::new") and norm(b.call_args(tt)[1]) == lenx for _, tt in b.calls())
                 if rng_ok and sts and all(any(x[0] == "bin" and x[1] == "Eq" and v is False and lenx in (x[2], x[3]) and a[1] in (x[2], x[3]) for x, v in s.lits) for s in sts):
                     cls = "idx in 0..=len guarded by idx != len"
+            # the eviction sample of add(): `sample[len - 1]` and `sample[<index found by the minimum search>]`
+            # (recognised by role - the vector that fill_sample returns - not by the names of the locals)
+            if cls is None and re.search(r"::(LFUPolicy|AsyncLFUPolicy)::add$", b.spath) and a[0][0] == "var":
+                vec_defs = var_def_exprs(b, a[0], False)
+                is_sample = any(is_call(d, "SampledLFU::fill_sample") for d in vec_defs)
+                lenm1 = norm(("bin", "Sub", call("std::vec::Vec::len", a[0]), ("const", 1, "usize")))
+                if is_sample and (a[1][0] == "var" or norm(b.expand(a[1])) == lenm1 or a[1] == lenm1):
+                    cls = ("audited: the sample is non-empty here: room < 0 with cost <= max_cost implies used > 0, hence key_costs (invariant R01.2) and the refilled sample "
+                           "are non-empty; the variable index is the position found by the minimum search over the same vector")
         elif kind == "panic":
             a = [show(norm(x)) for x in b.call_args(t)]
             desc = " ".join(a)[:120]
@@ -294,6 +307,7 @@ def check_C20(rep, fl):
     check_builder_plumbing(rep, fl)
     check_panic_sites(rep, fl)
     props_sketch.check_sketch_sizing(rep, fl, "R20.3")
+    props_sketch.check_sketch_cells(rep, fl, rule="R20.3", fold=False)
     props_sketch.check_bloom_sizing(rep, fl, None)
     props_life.check_unwraps(rep, fl)
     props_locks.check_lock_order(rep, fl, rule="R20.4")
